@@ -5,116 +5,213 @@
    matched with its nested record (and the nested body is followed against the
    nested trace).  Cache transparency (C01) = "if the replay of a faithful
    record succeeds now, running the body now follows the same trace".
-   Hypotheses of the transparency theorem live here too. *)
+   The hypotheses of the transparency theorem (Proofs/CoreLaws*.v) live here too.
+   Definitions only. *)
 From Coq Require Import List String NArith ZArith Bool Arith.
 From FB.Base Require Import PyVal Fs.
 From FB.Gen Require Import JsonUtilGen.
-From FB.Spec Require Import Prog Ref.
+From FB.Spec Require Import JsonSpec Prog Ref.
 From FB.Model Require Import Types SimpleOps Builder Persist Core.
 Import ListNotations.
 Open Scope list_scope.
 
-(* content oracle: what the file at p held when its comparison result (mode c) was r *)
+(* ------------------------------------------------------------------ *)
+(* content oracle: the bytes the file at p held when its comparison   *)
+(* result in mode c was r                                             *)
+(* ------------------------------------------------------------------ *)
 Definition kappa := path -> cmpmode -> pyval -> option string.
 
-(* walk results come back from the cache file with lists in place of tuples *)
-Definition retuple (v : pyval) : pyval :=
+(* "if defined then right": whenever the oracle speaks about a comparison result
+   that matches the file f (JSON equality, in either direction), it tells f's bytes *)
+Definition agrees (kp : kappa) (p : path) (f : fnode) : Prop :=
+  forall c r x, kp p c r = Some x ->
+    (is_equal r (cmp_of c f) = true \/ is_equal (cmp_of c f) r = true) -> x = f_bytes f.
+
+(* the regular files physically present when the build starts (visible or about to be hidden as
+   stale outputs) *)
+Definition kp_init (kp : kappa) (fs : fsT) : Prop :=
+  forall p f, lookup fs p = Some (NFile f) -> agrees kp p f.
+(* whatever is written during the build carries a modification time after the start *)
+Definition kp_new (kp : kappa) (clock0 : N) : Prop :=
+  forall p f, (clock0 < f_mtime f)%N -> agrees kp p f.
+
+(* ------------------------------------------------------------------ *)
+(* what user code saw when the executor recorded r for query q        *)
+(* ------------------------------------------------------------------ *)
+Fixpoint strs_of (l : list pyval) : option (list string) :=
+  match l with
+  | [] => Some []
+  | PStr s :: r => match strs_of r with Some ns => Some (s :: ns) | None => None end
+  | _ => None
+  end.
+(* a listing: a list (tuple) of strings *)
+Definition canon_strlist (v : pyval) : option pyval :=
   match v with
-  | PList l => PList (map (fun e => match e with PList x | PTuple x => PTuple x | o => o end) l)
-  | o => o
+  | PList l | PTuple l => match strs_of l with Some ns => Some (names_val ns) | None => None end
+  | _ => None
+  end.
+(* walk results come back from the cache file with lists in place of tuples *)
+Definition canon_entry (e : pyval) : option pyval :=
+  match e with
+  | PList [PStr d; a; b] | PTuple [PStr d; a; b] =>
+      match canon_strlist a, canon_strlist b with
+      | Some a', Some b' => Some (PTuple [PStr d; a'; b'])
+      | _, _ => None
+      end
+  | _ => None
+  end.
+Fixpoint canon_entries (l : list pyval) : option (list pyval) :=
+  match l with
+  | [] => Some []
+  | e :: r => match canon_entry e, canon_entries r with
+              | Some e', Some r' => Some (e' :: r')
+              | _, _ => None
+              end
+  end.
+Definition canon_walk (v : pyval) : option pyval :=
+  match v with
+  | PList l | PTuple l => option_map PList (canon_entries l)
+  | _ => None
   end.
 
-(* what user code saw when the executor recorded r for q *)
 Definition user_value (k : kappa) (q : query) (r : pyval) : option pyval :=
   match q with
+  | QExists _ | QIsFile _ | QIsDir _ => match r with PBool b => Some (PBool b) | _ => None end
+  | QListDir _ => canon_strlist r
+  | QWalk _ _ => canon_walk r
+  | QGetSize _ => match r with PInt z => Some (PInt z) | _ => None end
   | QRead p c => option_map PStr (k p c r)
-  | QWalk _ _ => Some (retuple r)
-  | _ => Some r
   end.
 
 Definition user_class (q : query) (c : errclass) : errclass :=
   if path_ok (spec_query_path q) then c else XOSError.
 
-(* result of a body: outcome, bytes written to the target (if any), unconsumed records *)
-Fixpoint follows (kp : kappa) (pr : prog) (subs : list op) (written : option string) {struct pr}
-  : option (outcome * option string * list op) :=
+(* Leibniz equality of queries, decided *)
+Definition query_beq (a b : query) : bool :=
+  match a, b with
+  | QExists p, QExists p' | QIsFile p, QIsFile p' | QIsDir p, QIsDir p'
+  | QListDir p, QListDir p' | QGetSize p, QGetSize p' => path_eqb p p'
+  | QWalk p t, QWalk p' t' => path_eqb p p' && Bool.eqb t t'
+  | QRead p c, QRead p' c' => path_eqb p p' && cmp_eqb c c'
+  | _, _ => false
+  end.
+
+(* ------------------------------------------------------------------ *)
+(* following a trace                                                  *)
+(* ------------------------------------------------------------------ *)
+(* targets and subbuild keys claimed so far in this trace, in the order of Cache._use_cached_operation *)
+Definition claims : Type := (list path * list pyval)%type.
+
+(* how a build_file function's run must end, given what its body did, for the record to be right:
+   the outcome handed to the caller (None: the record does not fit / not covered) *)
+Definition bf_end (kp : kappa) (p : path) (c : cmpmode) (nsubs : list op) (ret_ cmpres : pyval) (raised : bool)
+           (out_n : outcome) (bytes_n : option string) (cl2 : claims) : option outcome :=
+  let failed (e : exn) := if raised then Some (inr e) else None in
+  match out_n with
+  | inr e => failed e
+  | inl v =>
+      match sanitize v with
+      | None => failed XType
+      | Some sv =>
+          match bytes_n with
+          | None => failed (if path_ok p then XRuntime RNotCreated else XOS XOSError)
+          | Some b =>
+              (* a nested output below p: p is a directory now, the write fails *)
+              if existsb (is_ancestor p) (flat_map tree_outputs nsubs) then failed (XOS XIsADirectory)
+              (* only failed targets below p: whether p is still a directory depends on the tree; not covered *)
+              else if existsb (is_ancestor p) (fst cl2) then None
+              else if negb raised && pyval_same ret_ sv &&
+                      match kp p c cmpres with Some b' => String.eqb b b' | None => false end
+                   then Some (inl sv) else None
+          end
+      end
+  end.
+
+Definition sb_end (ret_ : pyval) (raised : bool) (out_n : outcome) : option outcome :=
+  match out_n with
+  | inr e => if raised then Some (inr e) else None
+  | inl v =>
+      match sanitize v with
+      | None => if raised then Some (inr XType) else None
+      | Some sv => if negb raised && pyval_same ret_ sv then Some (inl sv) else None
+      end
+  end.
+
+(* result of a body: outcome, bytes written to the target (if any), unconsumed records, claims *)
+Fixpoint follows (kp : kappa) (tgt : option path) (pr : prog) (subs : list op) (written : option string)
+         (cl : claims) {struct pr} : option (outcome * option string * list op * claims) :=
   match pr with
-  | Ret v => Some (inl v, written, subs)
-  | Raise e => Some (inr e, written, subs)
+  | Ret v => Some (inl v, written, subs, cl)
+  | Raise e => Some (inr e, written, subs, cl)
   | Ask stale q k =>
-      if stale then follows kp (k (inr (XRuntime RFinished))) subs written else
+      if stale then follows kp tgt (k (inr (XRuntime RFinished))) subs written cl else
       match subs with
       | OSimple q' r ex :: rest =>
-          if negb (query_eqb q q') then None else
+          if negb (query_beq q q') then None else
           match ex with
-          | Some c => follows kp (k (inr (XOS (user_class q c)))) rest written
+          | Some c => follows kp tgt (k (inr (XOS (user_class q c)))) rest written cl
           | None => match user_value kp q r with
-                    | Some v => follows kp (k (inl v)) rest written
+                    | Some v => follows kp tgt (k (inl v)) rest written cl
                     | None => None
                     end
           end
       | _ => None
       end
-  | Write c k => follows kp k subs (Some c)
+  | Write c k =>
+      match tgt with
+      | None => follows kp tgt k subs written cl
+      | Some p => if path_ok p then follows kp tgt k subs (Some c) cl
+                  else Some (inr (XOS XOSError), written, subs, cl)
+      end
   | BuildFile stale p c fname a kw fn k =>
-      if stale then follows kp (k (inr (XRuntime RFinished))) subs written else
+      if stale then follows kp tgt (k (inr (XRuntime RFinished))) subs written cl else
       match sanitize a, sanitize kw with
       | Some sa, Some skw =>
           match subs with
           | OBuildFile p' c' f' a' k' nsubs ret_ cmpres raised sf :: rest =>
-              if negb (path_eqb p p' && cmp_eqb c c' && String.eqb fname f' && is_equal a' sa && is_equal k' skw) then None else
+              if negb (path_eqb p p') then None else
               if sf then None else            (* the outcome of a setup failure is not determined by the record *)
-              match follows kp (fn p sa skw) nsubs None with
-              | Some (out_n, bytes_n, []) =>
-                  match out_n with
-                  | inr e => if raised then follows kp (k (inr e)) rest written else None
-                  | inl v =>
-                      match sanitize v with
-                      | None => if raised then follows kp (k (inr XType)) rest written else None
-                      | Some sv =>
-                          match bytes_n with
-                          | None => if raised then follows kp (k (inr (if path_ok p then XRuntime RNotCreated else XOS XOSError))) rest written
-                                    else None
-                          | Some b =>
-                              if negb raised && pyval_same ret_ sv &&
-                                 match kp p c cmpres with Some b' => String.eqb b b' | None => false end
-                              then follows kp (k (inl sv)) rest written else None
-                          end
-                      end
+              (* a target claimed before, or an ancestor of one, cannot have been set up *)
+              if mem_path p (fst cl) || existsb (is_ancestor p) (fst cl) then None else
+              match follows kp (Some p) (fn p sa skw) nsubs None (fst cl ++ [p], snd cl) with
+              | Some (out_n, bytes_n, [], cl2) =>
+                  match bf_end kp p c' nsubs ret_ cmpres raised out_n bytes_n cl2 with
+                  | Some o => follows kp tgt (k o) rest written cl2
+                  | None => None
                   end
               | _ => None
               end
           | _ => None
           end
-      | _, _ => follows kp (k (inr XType)) subs written
+      | _, _ => follows kp tgt (k (inr XType)) subs written cl
       end
   | Subbuild stale fname a kw fn k =>
-      if stale then follows kp (k (inr (XRuntime RFinished))) subs written else
+      if stale then follows kp tgt (k (inr (XRuntime RFinished))) subs written cl else
       match sanitize a, sanitize kw with
       | Some sa, Some skw =>
           match subs with
           | OSubbuild f' a' k' nsubs ret_ raised sf :: rest =>
-              if negb (String.eqb fname f' && is_equal a' sa && is_equal k' skw) then None else
+              if negb (String.eqb fname f' && pyval_same a' sa && pyval_same k' skw) then None else
               if sf then None else
-              match follows kp (fn sa skw) nsubs None with
-              | Some (out_n, _, []) =>
-                  match out_n with
-                  | inr e => if raised then follows kp (k (inr e)) rest written else None
-                  | inl v =>
-                      match sanitize v with
-                      | None => if raised then follows kp (k (inr XType)) rest written else None
-                      | Some sv => if negb raised && pyval_same ret_ sv then follows kp (k (inl sv)) rest written else None
-                      end
+              let key := subbuild_key fname sa skw in
+              if existsb (py_eq key) (snd cl) then None else
+              match follows kp None (fn sa skw) nsubs None (fst cl, snd cl ++ [key]) with
+              | Some (out_n, _, [], cl2) =>
+                  match sb_end ret_ raised out_n with
+                  | Some o => follows kp tgt (k o) rest written cl2
+                  | None => None
                   end
               | _ => None
               end
           | _ => None
           end
-      | _, _ => follows kp (k (inr XType)) subs written
+      | _, _ => follows kp tgt (k (inr XType)) subs written cl
       end
   end.
 
-(* the functions of this build, by name *)
+(* ------------------------------------------------------------------ *)
+(* the functions of this build, by name                               *)
+(* ------------------------------------------------------------------ *)
 Record ftable := { ft_file : string -> path -> pyval -> pyval -> prog; ft_sub : string -> pyval -> pyval -> prog }.
 
 (* documented user obligation: a name denotes one function (the version is part of what selects the table) *)
@@ -132,62 +229,76 @@ Inductive Obeys (F : ftable) : prog -> Prop :=
     (forall a' k', Obeys F (ft_sub F f a' k')) ->
     (forall o, Obeys F (k o)) -> Obeys F (Subbuild s f a kw fn k).
 
-(* a record of the previous build whose function has the same version now is a trace of that function *)
+(* cache identity is JSON equality: build_file functions do not distinguish JSON-equal arguments
+   (for subbuild functions see [faithful_cache]) *)
+Definition Respects (F : ftable) : Prop :=
+  forall f p a a' k k', is_equal a a' = true -> is_equal k k' = true -> ft_file F f p a k = ft_file F f p a' k'.
+
+(* ------------------------------------------------------------------ *)
+(* faithful records                                                   *)
+(* ------------------------------------------------------------------ *)
+Definition vers_equal (old : cache) (vers : pyval) (fname : string) : bool :=
+  is_equal (func_version old fname) (py_dict_get (PStr fname) vers).
+
+(* a record that the replay could accept: no setup failure anywhere inside, every function inside unchanged *)
+Fixpoint replayable (old : cache) (vers : pyval) (o : op) {struct o} : bool :=
+  match o with
+  | OSimple _ _ _ => true
+  | OBuildFile _ _ f _ _ subs _ _ _ sf => negb sf && vers_equal old vers f && forallb (replayable old vers) subs
+  | OSubbuild f _ _ subs _ _ sf => negb sf && vers_equal old vers f && forallb (replayable old vers) subs
+  end.
+
+(* a subbuild record as a trace of its function called with (sa, skw): the key claimed by the call is
+   the key of THESE arguments (a nested call is a duplicate if its key equals the key of the running call) *)
+Definition faithful_sub_at (kp : kappa) (F : ftable) (o : op) (sa skw : pyval) : bool :=
+  match o with
+  | OSubbuild f _ _ subs ret_ raised _ =>
+      match follows kp None (ft_sub F f sa skw) subs None ([], [subbuild_key f sa skw]) with
+      | Some (out_n, _, [], _) => match sb_end ret_ raised out_n with Some _ => true | None => false end
+      | _ => false
+      end
+  | _ => false
+  end.
+
+(* the record is a trace of its function, started with nothing but itself claimed *)
 Definition faithful_op (kp : kappa) (F : ftable) (o : op) : bool :=
   match o with
   | OSimple _ _ _ => true
   | OBuildFile p c f a k subs ret_ cmpres raised sf =>
-      sf ||
-      match follows kp (ft_file F f p a k) subs None with
-      | Some (out_n, bytes_n, []) =>
-          match out_n with
-          | inr _ => raised
-          | inl v => match sanitize v with
-                     | None => raised
-                     | Some sv => match bytes_n with
-                                  | None => raised
-                                  | Some b => negb raised && pyval_same ret_ sv &&
-                                              match kp p c cmpres with Some b' => String.eqb b b' | None => false end
-                                  end
-                     end
-          end
+      match follows kp (Some p) (ft_file F f p a k) subs None ([p], []) with
+      | Some (out_n, bytes_n, [], cl2) =>
+          match bf_end kp p c subs ret_ cmpres raised out_n bytes_n cl2 with Some _ => true | None => false end
       | _ => false
       end
-  | OSubbuild f a k subs ret_ raised sf =>
-      sf ||
-      match follows kp (ft_sub F f a k) subs None with
-      | Some (out_n, _, []) =>
-          match out_n with
-          | inr _ => raised
-          | inl v => match sanitize v with None => raised | Some sv => negb raised && pyval_same ret_ sv end
-          end
-      | _ => false
-      end
+  | OSubbuild f a k subs ret_ raised sf => faithful_sub_at kp F o a k
   end.
 
-(* every registered record whose function version is unchanged is faithful (records containing a
-   setup failure are never replayed and are exempt) *)
+(* shape of the registered records (what Cache.add / the cache file reader guarantee) *)
+Definition cache_wf (old : cache) : Prop :=
+  (forall p o, files_get (c_files old) p = Some (Some o) ->
+     exists c f a k subs ret_ cmpres raised sf,
+       o = OBuildFile p c f a k subs ret_ cmpres raised sf /\ (sf = true -> raised = true)) /\
+  (forall key o, subs_get (c_subs old) key = Some (Some o) ->
+     exists f a k subs ret_ raised sf,
+       o = OSubbuild f a k subs ret_ raised sf /\ (sf = true -> raised = true) /\
+       sanitized a = true /\ sanitized k = true /\ py_eq (subbuild_key f a k) key = true).
+
+(* every registered record that could be served from the cache (not raised, replayable) is faithful.
+   A subbuild record is looked up by key, i.e. up to JSON equality of the arguments: it must be a trace of
+   the function for every such presentation (sa, skw) of its arguments (with well-formed floats JSON
+   equality is transitive and the instance sa = a, skw = k implies the others) *)
 Definition faithful_cache (kp : kappa) (F : ftable) (old : cache) (vers : pyval) : Prop :=
   (forall p o, files_get (c_files old) p = Some (Some o) ->
-     is_equal (func_version old (match o with OBuildFile _ _ f _ _ _ _ _ _ _ => f | OSubbuild f _ _ _ _ _ _ => f | _ => "" end))
-              (py_dict_get (PStr (match o with OBuildFile _ _ f _ _ _ _ _ _ _ => f | OSubbuild f _ _ _ _ _ _ => f | _ => "" end)) vers) = true ->
-     faithful_op kp F o = true) /\
-  (forall key o, subs_get (c_subs old) key = Some (Some o) ->
-     is_equal (func_version old (match o with OBuildFile _ _ f _ _ _ _ _ _ _ => f | OSubbuild f _ _ _ _ _ _ => f | _ => "" end))
-              (py_dict_get (PStr (match o with OBuildFile _ _ f _ _ _ _ _ _ _ => f | OSubbuild f _ _ _ _ _ _ => f | _ => "" end)) vers) = true ->
-     faithful_op kp F o = true).
+     op_raised o = false -> replayable old vers o = true -> faithful_op kp F o = true) /\
+  (forall key f a k subs ret_ raised sf, subs_get (c_subs old) key = Some (Some (OSubbuild f a k subs ret_ raised sf)) ->
+     raised = false -> replayable old vers (OSubbuild f a k subs ret_ raised sf) = true ->
+     forall sa skw, sanitized sa = true -> sanitized skw = true -> is_equal a sa = true -> is_equal k skw = true ->
+       faithful_sub_at kp F (OSubbuild f a k subs ret_ raised sf) sa skw = true).
 
-(* comparison results determine contents: for the files present at the start of the build ... *)
-Definition meta_sound_init (kp : kappa) (fs : fsT) (stale : list (path * fnode)) : Prop :=
-  forall p f, (lookup fs p = Some (NFile f) \/ stale_get stale p = Some f) ->
-    forall c r, is_equal r (cmp_of c f) = true -> kp p c r = Some (f_bytes f).
-(* ... and for whatever is written from now on (new modification times lie in the future of every
-   recorded METADATA result; HASH results determine the bytes) *)
-Definition meta_sound_new (kp : kappa) (clock0 : N) : Prop :=
-  forall p bytes m i j c r, (clock0 < m)%N ->
-    is_equal r (cmp_of c {| f_bytes := bytes; f_mtime := m; f_id := i; f_json := j |}) = true -> kp p c r = Some bytes.
-
-(* trees that differ at most in the modification time / inode of regular files *)
+(* ------------------------------------------------------------------ *)
+(* Core state vs reference state                                      *)
+(* ------------------------------------------------------------------ *)
+(* trees that differ at most in the modification time / inode / json of regular files *)
 Definition node_equiv (a b : option node) : Prop :=
   match a, b with
   | None, None => True
@@ -200,7 +311,32 @@ Definition tree_equiv (a b : fsT) : Prop := forall p, node_equiv (lookup a p) (l
 Definition same_paths (a b : list path) : Prop := forall p, mem_path p a = mem_path p b.
 Definition same_keys (a b : list pyval) : Prop := forall k, existsb (py_eq k) a = existsb (py_eq k) b.
 
-(* Core state vs reference state *)
 Definition sim (s : kstate) (r : rstate) : Prop :=
   tree_equiv (k_fs s) (r_fs r) /\ same_paths (k_claimedF s) (r_claimedF r) /\ same_keys (k_claimedS s) (r_claimedS r) /\
-  same_paths (k_need s) (r_need r) /\ same_paths (k_made s) (r_made r) /\ k_cachefile s = r_cachefile r.
+  k_need s = r_need r /\ k_made s = r_made r /\ k_cachefile s = r_cachefile r.
+
+(* subsequence (both logs newest first, or both oldest first) *)
+Inductive sublog {A : Type} : list A -> list A -> Prop :=
+| sl_nil : forall l, sublog [] l
+| sl_keep : forall x a b, sublog a b -> sublog (x :: a) (x :: b)
+| sl_skip : forall y a b, sublog a b -> sublog a (y :: b).
+
+(* ------------------------------------------------------------------ *)
+(* invariants of the two states                                       *)
+(* ------------------------------------------------------------------ *)
+(* reference state: the tree is a tree, every target done or in progress has its parent directory,
+   the target of the running function is one of them *)
+Definition RInv (tgt : option path) (r : rstate) : Prop :=
+  fs_wf (r_fs r) /\
+  (forall n, In n (r_need r) -> n <> [] /\ lookup (r_fs r) (dirname n) = Some NDir) /\
+  (forall p, tgt = Some p -> In p (r_need r)).
+
+(* Core state: the records and versions are those of the build; the oracle is right about every regular
+   file physically there; an old output that is visible has been claimed (so a stale output is hidden);
+   the clock has not run backwards *)
+Definition KInv (kp : kappa) (old : cache) (vers : pyval) (clock0 : N) (s : kstate) : Prop :=
+  k_old s = old /\ k_vers s = vers /\
+  (forall p f, lookup (k_fs s) p = Some (NFile f) \/ stale_get (k_stale s) p = Some f -> agrees kp p f) /\
+  (forall p o, cache_get_file old p = Some o -> op_raised o = false ->
+               isfile (k_fs s) p = true -> mem_path p (k_claimedF s) = true) /\
+  (clock0 <= k_clock s)%N.
